@@ -97,6 +97,9 @@ def handleLink (j : Json) : R Json := do
           ["applyAt",name,path,ns,from]     the same on the scope at `path` inside the tree (from "" = nil table)
           ["applySub",name,ns,from,id,...]  `apply` with the table of `from` minus the listed IDs
           ["applyAtSub",name,path,ns,from,id,...]   likewise at `path`
+          ["literal",name]                  every scope of the tree is written as a plain `&ScopeSchema{}` value:
+                                            nothing is applied (no-op in the model; the next "self" links it)
+          ["replace",name,path,id,json]     `ObjectsValue[id] = object` on the scope at `path`; json = the object T
           ["try",step...]                   the step under `recover()`: if it panics the program goes on with
                                             the trees as they were (`Link.recovered`)
   result: {"r":"ok","v":{"trees":[[name,[[path,target],...],valid],...]}} for all trees in the given order,
@@ -129,6 +132,14 @@ def runStep1 (store : List (String × LTy)) (step : List String) : Except String
   | ["self", name] => upd name (applyNs name [] "" [])
   | ["apply", name, ns, src] => upd name (applyNs name (tableOf store src) ns [])
   | ["applyAt", name, path, ns, src] => upd name (applyAt name (tableOf store src) ns (splitPath path) [])
+  | ["literal", name] => upd name (fun t => .ok t)
+  | ["replace", name, path, id, js] =>
+    match Json.parse js with
+    | .error e => .error s!"bad replacement object: {e}"
+    | .ok j =>
+      match decL j with
+      | .error e => .error e
+      | .ok obj => upd name (fun t => .ok (replaceAt (splitPath path) id obj [] t))
   | "applySub" :: name :: ns :: src :: missing => upd name (applyNs name (tableMinus (tableOf store src) missing) ns [])
   | "applyAtSub" :: name :: path :: ns :: src :: missing =>
     upd name (applyAt name (tableMinus (tableOf store src) missing) ns (splitPath path) [])
